@@ -359,6 +359,37 @@ pub fn check(tier: Tier, threads: usize) -> CheckOutcome {
             Ok(None) => {}
         }
     }
+    // an oversized body streamed in small reads: what the connection keeps buffered must stay bounded
+    for opc in [op::SET, op::GET, op::APPEND, op::NOOP, op::TOUCH] {
+        for body in [LIMIT + 1, 2 * LIMIT, 64 * LIMIT, 1024 * LIMIT] {
+            let world = World::new(SutCfg { item_limit: LIMIT, policy: Policy::None });
+            let mut conn = world.conn();
+            let mut r = Req::new(opc).opaque(0xb10a7);
+            r.key = b"k".to_vec();
+            r.body_len = Some(body);
+            let _ = conn.exec(&r.header());
+            let mut high = conn.buf.len();
+            let chunk = vec![0x61u8; 512];
+            let mut fed = 0usize;
+            while fed < (body as usize).min(200 * 1024) {
+                let _ = conn.exec(&chunk);
+                fed += chunk.len();
+                high = high.max(conn.buf.len());
+                if conn.closed {
+                    break;
+                }
+            }
+            if high > LIMIT as usize + 24 + 4096 {
+                failing += 1;
+                let sig = "buffer-bloat|streamed-oversized-body".to_string();
+                found.entry(sig.clone()).or_insert(Violation {
+                    signature: sig,
+                    what: format!("op {:#x} announcing a {}-byte body (limit {}), streamed in 512-byte reads: the decode buffer held {} bytes, bound is limit + 24 + 4096", opc, body, LIMIT, high),
+                    replay: json!({"engine": "c10-stream"}),
+                });
+            }
+        }
+    }
     let mut split_cases: Vec<(u8, u32)> = vec![];
     for opc in [op::SET, op::GET, op::INCR, op::NOOP, op::TOUCH, op::APPENDQ, op::QUIT] {
         for l in [LIMIT + 150, 2 * LIMIT, LIMIT + 70_000, LIMIT + 200_000] {
